@@ -73,6 +73,12 @@ func main() {
 		runClockSuite(*seed, *n, out, stats)
 	case "accept":
 		runAcceptSuite(*seed, *n, out, stats)
+	case "net":
+		runNetSuite(*seed, *n, out, stats)
+	case "wallet":
+		runWalletSuite(*seed, *n, out, stats)
+	case "views":
+		runViewsSuite(*seed, *n, out, stats)
 	case "decay":
 		runDecaySuite(*seed, *n, out, stats)
 	case "catchup":
